@@ -81,7 +81,7 @@ Proof.
   destruct (same_crd (crd s) v); [exists []; apply Q0; reflexivity|].
   destruct (comps s) as [|ck cs] eqn:E.
   - exists []. apply Q0; reflexivity.
-  - destruct (match v with Some co => co_ndim co =? ndim s | None => true end); [|exists []; apply Q0; reflexivity].
+  - destruct (coords_ok v s); [|exists []; apply Q0; reflexivity].
     cbv beta iota zeta delta [fst]. pose proof I as [WI _ _ _ q].
     destruct (ann_update_world (length (shape s)) (set_crd s v) (winv_set_crd s v WI) q) as [out [A O Rk Fr]].
     exists out. constructor; [|exact O | exact Rk | exact Fr].
